@@ -44,8 +44,11 @@ class Run(D.Run):
     def enc(self, args, kwargs):
         if len(args) == 1 and not kwargs and self.cur is not None and self.setting is not None:
             # identity: the listener must get the very object a read of the property returns
-            same = args[0] is getattr(self.ts[self.cur], self.setting) or \
-                (not isinstance(args[0], tuple) and args[0] == getattr(self.ts[self.cur], self.setting))
+            # (a postponed notification released during this assignment carries an older value: its
+            # token differs from the stored one and is judged by the oracle; the marker is for an equal
+            # COPY handed to the listener instead of the stored object)
+            cur = getattr(self.ts[self.cur], self.setting)
+            same = args[0] is cur or not isinstance(args[0], tuple) or enc(args[0]) != enc(cur)
             return enc(args[0]) + ('' if same else '!not-the-stored-value')
         if len(args) == 1 and not kwargs and isinstance(args[0], (tuple, float)):
             return enc(args[0])
